@@ -32,7 +32,7 @@ def run(run):
     run.assumptions += [
         "KNOWN FINDING F79 (not repaired): the cursor status readers (Cursor.IsOpen/IsInRange/Count/Pointer, first line of Fetch) read c.view/c.index/c.fetched without c.mtx; re-found statically and by the race detector on every run, accepted only under its own signature",
         "F7 (HasError/Err without the mutex; pos/err shared by the loader goroutines) is fixed in /repo (bec97d6); the sites are still extracted, proved guarded/atomic/sole-goroutine on every run and exercised under the race detector",
-        "TRUSTED: an access the extractor classifies ownIndex/guarded/chan/wg/readOnly really has that access pattern at run time (functions CALLED from the worker closures are not analysed, except METHODS called on a shared object: their source (module, dependencies, standard library) is summarised into reads/writes of the receiver's fields, transitively over the type's own methods and one level into the fields' methods; unresolved effects count as writes; fields and package-level variables handed to sync/atomic anywhere in lib/query must not be accessed plainly elsewhere (mixed atomic / plain access, the shape of F81); objects a function takes from the context (ctx.Value(key).(*T)) are treated as shared by all workers of the statement, so a write to one needs a lock; a receiver handed on as an argument and local aliases of receiver fields are not followed)",
+        "TRUSTED: an access the extractor classifies ownIndex/guarded/chan/wg/readOnly really has that access pattern at run time (functions CALLED from the worker closures are not analysed, except METHODS called on a shared object: their source (module, dependencies, standard library) is summarised into reads/writes of the receiver's fields, transitively over the type's own methods and one level into the fields' methods; unresolved effects count as writes; package-level variables of lib/query, lib/value and lib/option written by any function (assignment, element assignment, receiver-changing method) need a lock, a sync.Once or a concurrency-safe type, because every function may run on a worker; fields and package-level variables handed to sync/atomic anywhere in lib/query must not be accessed plainly elsewhere (mixed atomic / plain access, the shape of F81); objects a function takes from the context (ctx.Value(key).(*T)) are treated as shared by all workers of the statement, so a write to one needs a lock; a receiver handed on as an argument and local aliases of receiver fields are not followed)",
         "TRUSTED: Go memory model; a data race is rendered as: two accesses of different goroutines of one fork-join region, same location, one a write, disjoint locksets, not both operations of a synchronisation object",
         "index space 'partition' (analytic functions): the row numbers a worker draws from its own partitions[...] element belong to that partition (proved: distinct partitions are disjoint, partitions_disjoint)",
         "RecordRange arithmetic is translated over unbounded Int (no 64-bit overflow: every intermediate value is at most recordLen)",
@@ -122,7 +122,7 @@ def run(run):
                               for f in facts[:: max(1, len(facts) // 5)]][:5] + run.cov["samples"]
     return run.finish(
         level="proof",
-        rule="static: every access to a shared variable in every fork-join region of lib/query (closures passed to GoroutineTaskManager.Run / EvaluateSequentially, bodies started with go, the parent between fork and join, methods of the manager types), classified and checked by kernel evaluation; dynamic: a load matrix first (CSV, TSV, fixed-length, LTSV, JSONL, JSON; from a file and from stdin; with and without header; row counts 159/161/299/301/650 in the quick tier and 1..2500 around 80, 160, 300, 320, 600, 640 in the thorough tier, on both sides of the 300-record loader buffer and of the 80-rows-per-worker threshold; @@CPU 1, 2, 4, 8), then correlated sub-queries (EXISTS, IN, scalar, NOT EXISTS under GROUP BY) with 10-12 distinct outer-column references over an outer table below and above the per-worker split size, then loads that fail in the middle of a file (surplus field, broken quote, LTSV line without separator, broken / non-object JSON line; at record 2, 350, 690 of 700; file and stdin) and loads cancelled after 50 µs … 8 ms, then inline tables (JSON_INLINE, CSV_INLINE) inside per-record sub-queries and set operations inside a sub-query of a recursive term (F80, F81, both fixed), then RAND / NOW / JSON_OBJECT, a user-defined function that FETCHes an outer cursor called from a parallel WHERE / select list next to CURSOR … IS OPEN / IS IN RANGE / COUNT (known finding F79), list aggregates WITHIN GROUP ordered by expressions over derived tables with many groups, prepared statements executed USING literals, variables, arithmetic and sub-queries (positional and named placeholders, GROUP BY/HAVING, UPDATE, cursors declared for prepared statements), then statements of 47 kinds (6 file formats, filters, 7 join forms, GROUP BY/HAVING, ORDER BY, DISTINCT, set operators, 4 analytic families, recursive CTE, DML, cursor, 6 failing statements) on tables of 200-3000 rows with @@CPU drawn from 2..8 under the race detector; non-trivial = distinct (statement kind, @@CPU, row band, error code)",
+        rule="static: every access to a shared variable in every fork-join region of lib/query (closures passed to GoroutineTaskManager.Run / EvaluateSequentially, bodies started with go, the parent between fork and join, methods of the manager types), classified and checked by kernel evaluation; dynamic: a load matrix first (CSV, TSV, fixed-length, LTSV, JSONL, JSON; from a file and from stdin; with and without header; row counts 159/161/299/301/650 in the quick tier and 1..2500 around 80, 160, 300, 320, 600, 640 in the thorough tier, on both sides of the 300-record loader buffer and of the 80-rows-per-worker threshold; @@CPU 1, 2, 4, 8), then correlated sub-queries (EXISTS, IN, scalar, NOT EXISTS under GROUP BY) with 10-12 distinct outer-column references over an outer table below and above the per-worker split size, then loads that fail in the middle of a file (surplus field, broken quote, LTSV line without separator, broken / non-object JSON line; at record 2, 350, 690 of 700; file and stdin) and loads cancelled after 50 µs … 8 ms, then inline tables (JSON_INLINE, CSV_INLINE) inside per-record sub-queries and set operations inside a sub-query of a recursive term (F80, F81, both fixed), then the function grid (every built-in scalar function of the Functions map evaluated per record over 700 rows, one type vector per first-argument type, in batches of 8 at @@CPU 2/4/8, plus value-dependent FORMAT / REGEXP / DATETIME / NUMBER_FORMAT calls) and STDIN touched for the first time inside a per-record sub-query (IN, EXISTS, scalar, LATERAL, ORDER BY), then RAND / NOW / JSON_OBJECT, a user-defined function that FETCHes an outer cursor called from a parallel WHERE / select list next to CURSOR … IS OPEN / IS IN RANGE / COUNT (known finding F79), list aggregates WITHIN GROUP ordered by expressions over derived tables with many groups, prepared statements executed USING literals, variables, arithmetic and sub-queries (positional and named placeholders, GROUP BY/HAVING, UPDATE, cursors declared for prepared statements), then statements of 47 kinds (6 file formats, filters, 7 join forms, GROUP BY/HAVING, ORDER BY, DISTINCT, set operators, 4 analytic families, recursive CTE, DML, cursor, 6 failing statements) on tables of 200-3000 rows with @@CPU drawn from 2..8 under the race detector; non-trivial = distinct (statement kind, @@CPU, row band, error code)",
         trusted_base=BASE_TRUST + [
             "extract/parfacts: syntactic access classification (go/ast + go/types), refuses constructs without a rule; plain function callees of worker closures are not analysed; method summaries are syntactic",
             "the Go memory model, rendered as the lockset race definition of Csvq/Model/ForkJoin.lean",
